@@ -134,6 +134,21 @@ def big_case(ctx, rng, reverse):
         rep.fail('wrong-order:above-cache', case, {'first_diff': next(i for i, (a, b) in enumerate(zip(got, want)) if a != b)})
 
 
+def wide_case(ctx, n, reverse):
+    """few distinct keys over a table that is longer than 16^k rows: the row number that breaks ties has to order rows on both
+    sides of every power of 16"""
+    rep = ctx.report
+    rows = [{'x': 'k%d' % (i % 3), 'id': i} for i in range(n)]
+    with quiet():
+        out = Flow(rows, DF.sort_rows('{x}', reverse=reverse, batch_size=5000)).results(on_error=None)[0][0]
+    got = [r['id'] for r in out]
+    case = {'wide': n, 'reverse': reverse}
+    rep.case('sort:wide', case)
+    want = spec_sort(rows, lambda r: r['x'], reverse)
+    if got != want:
+        rep.fail('wrong-order:ties-in-a-long-table', case, {'first_diff': next(i for i, (a, b) in enumerate(zip(got, want)) if a != b)})
+
+
 def probe(finding):
     if finding['signature'] == 'sort:integers-above-2^53-tie':
         with quiet():
@@ -158,6 +173,8 @@ def run(ctx):
     for _ in range(ctx.n(1, 6)):
         for reverse in (False, True):      # both directions on every run, above the cache
             big_case(ctx, rng, reverse)
+    for n in ((300, 4200) if ctx.tier == 'quick' else (300, 4200, 66000)):
+        wide_case(ctx, n, n == 4200)
     if ctx.model.available():
         outs = ctx.model.run([op for _, op, _ in pending])
         for (case, op, got), mo in zip(pending, outs):
@@ -172,6 +189,12 @@ def run(ctx):
     def search(disagreements):
         rng2 = ctx.rng('search')
         before = len(rep.oracle_failures)
+        for n in (300, 4200, 66000):          # first: ties across 16^2, 16^3, 16^4 rows
+            for reverse in (False, True):
+                wide_case(ctx, n, reverse)
+            if len(rep.oracle_failures) > before:
+                o = rep.oracle_failures[before]
+                return {'signature': o['signature'], 'case': o['case'], 'detail': o['detail']}
         for _ in range(ctx.n(3000, 20000)):
             table_case(ctx, rng2, [], [])
             if len(rep.oracle_failures) > before:
